@@ -390,6 +390,26 @@ pub(crate) fn native_replay() -> bool {
     unsafe { NATIVE_REPLAY }
 }
 
+/// Replacement for `alloc::boxed::box_new_uninit` (what `Box::new` calls in Kani's toolchain): a bump allocator over a static array of
+/// 64 words (64 = CBMC's default field-sensitivity bound), so that boxed values - async_trait futures above all - are
+/// constant-folded like stack objects.  Only for harnesses that also stub deallocation (`nofree`); alignment <= 8.
+static mut ARENA: [u64; 64] = [0; 64];
+static mut ARENA_USED: usize = 0;
+pub(crate) fn arena_box_new_uninit(layout: std::alloc::Layout) -> *mut u8 {
+    unsafe { arena_alloc(layout.size(), layout.align()) }
+}
+unsafe fn arena_alloc(size: usize, align: usize) -> *mut u8 {
+    if native_replay() {
+        return std::alloc::alloc(std::alloc::Layout::from_size_align_unchecked(size.max(1), align));
+    }
+    assert!(align <= 8, "verif arena: alignment");
+    let words = (size + 7) / 8;
+    assert!(ARENA_USED + words <= 64, "verif arena: exhausted");
+    let p = (std::ptr::addr_of_mut!(ARENA) as *mut u64).add(ARENA_USED) as *mut u8;
+    ARENA_USED += words;
+    p
+}
+
 /// No-op replacement for `<Global as Allocator>::deallocate`: nothing is ever freed in harnesses that use
 /// stack-resident boxes; use-after-free and leaks are outside every claim.
 pub(crate) unsafe fn global_dealloc_noop(_g: &std::alloc::Global, _ptr: std::ptr::NonNull<u8>, _layout: std::alloc::Layout) {}
